@@ -65,32 +65,48 @@ Section Params.
   Qed.
 End Params.
 
-(* ---- documents without ruby: the kinds body, div, p, span, br, text; br and text are leaves ---------------- *)
-Fixpoint plain_wf (e : elem) : bool :=
-  match e with
-  | Elem a cs =>
-      match e_kind a with
-      | KBody | KDiv | KP | KSpan => true
-      | KBr | KText => match cs with [] => true | _ => false end
-      | _ => false
-      end && forallb plain_wf cs
-  end.
+(* ---- the clone's pruning test and the trigger of the recorded finding ----------------------------------------- *)
+From TT Require Import Model.CloneTrigger.
 
-(* restricting the body to what can appear in region rid does not change the region's snapshot *)
+Lemma clone_empties_node sel inh a cs :
+  clone_empties sel inh (Elem a cs) =
+  let assoc := match e_region a with Some r => Some r | None => inh end in
+  let has_children := match cs with [] => false | _ => true end in
+  if negb (oid_eqb assoc (Some sel)) && (negb has_children || match assoc with Some _ => true | None => false end)
+  then false
+  else existsb (clone_empties sel assoc) cs ||
+       (kept_childless (e_kind a) && has_children && negb (oid_eqb assoc (Some sel)) && forallb (clone_prunes sel assoc) cs).
+Proof. reflexivity. Qed.
+
+(* restrict answers "not in this region" exactly when the pruning test fires *)
+Lemma restrict_none sel inh e : restrict sel inh e = Ok None -> clone_prunes sel inh e = true.
+Proof.
+  destruct e as [a cs]. cbn [restrict]. unfold clone_prunes. cbn [eattrs echildren].
+  match goal with |- (if ?b then _ else _) = _ -> _ => destruct b end; [reflexivity|].
+  match goal with |- bind ?g _ = _ -> _ => destruct g as [cs'|] end; cbn [bind]; [|discriminate].
+  destruct (is_nonempty_l cs' && negb (push_children_ok (e_kind a) cs')); discriminate.
+Qed.
+
+(* restricting the body to what can appear in region rid does not change the region's snapshot — for EVERY element
+   tree (ruby included, no content-model hypothesis) on which the trigger of the recorded finding does not fire *)
 Lemma restrict_proc d t rid : forall e inh par pb pe r e',
-  plain_wf e = true -> restrict rid inh e = Ok e' ->
+  clone_empties rid inh e = false -> restrict rid inh e = Ok e' ->
   proc d t (Some rid) inh par pb pe e = Ok r ->
   match e' with Some x => proc d t (Some rid) inh par pb pe x = Ok r | None => r = None end.
 Proof.
-  induction e as [a cs IH] using elem_ind2. intros inh par pb pe r e' Hwf Hres Hproc.
-  cbn [plain_wf] in Hwf. apply andb_true_iff in Hwf as [Hk Hwfcs]. rewrite forallb_forall in Hwfcs.
+  induction e as [a cs IH] using elem_ind2. intros inh par pb pe r e' Htr Hres Hproc.
+  rewrite clone_empties_node in Htr. cbv zeta in Htr.
   cbn [restrict] in Hres. cbn [proc] in Hproc.
   set (assoc := match e_region a with Some r => Some r | None => inh end) in *.
   destruct (negb (oid_eqb assoc (Some rid)) && (negb (match cs with [] => false | _ => true end) || match assoc with Some _ => true | None => false end)) eqn:Epr.
   - injection Hres as <-. destruct (negb (active_at t _)); injection Hproc as <-; reflexivity.
-  - match type of Hres with bind ?g _ = _ => destruct g as [cs'|] eqn:Eg end; [|discriminate]. cbn [bind] in Hres.
-    assert (Hpush : push_children_ok (e_kind a) cs' = true) by (destruct (e_kind a); try reflexivity; discriminate).
-    rewrite Hpush in Hres. rewrite andb_false_r in Hres. injection Hres as <-.
+  - apply orb_false_iff in Htr as [Htrcs Htrself]. 
+    assert (Htrcs' : forall x, In x cs -> clone_empties rid assoc x = false).
+    { intros x Hx. destruct (clone_empties rid assoc x) eqn:E; [|reflexivity].
+      assert (existsb (clone_empties rid assoc) cs = true) by (apply existsb_exists; exists x; split; assumption). congruence. }
+    match type of Hres with bind ?g _ = _ => destruct g as [cs'|] eqn:Eg end; [|discriminate]. cbn [bind] in Hres.
+    destruct (is_nonempty_l cs' && negb (push_children_ok (e_kind a) cs')) eqn:Epush; [discriminate|].
+    injection Hres as <-.
     cbn [proc]. fold assoc.
     set (iv := make_absolute (e_begin a) (e_end a) pb pe) in *.
     destruct (negb (active_at t iv)); [exact Hproc|].
@@ -108,10 +124,10 @@ Proof.
                  | c :: l' => bind (restrict rid assoc c) (fun r0 =>
                               bind (go l') (fun rs => Ok (match r0 with Some x => x :: rs | None => rs end)))
                  end) in *.
-    assert (Hch : forall l, Forall (fun e => forall inh par pb pe r e', plain_wf e = true -> restrict rid inh e = Ok e' ->
+    assert (Hch : forall l, Forall (fun e => forall inh par pb pe r e', clone_empties rid inh e = false -> restrict rid inh e = Ok e' ->
                                    proc d t (Some rid) inh par pb pe e = Ok r ->
                                    match e' with Some x => proc d t (Some rid) inh par pb pe x = Ok r | None => r = None end) l ->
-                     (forall x, In x l -> plain_wf x = true) ->
+                     (forall x, In x l -> clone_empties rid assoc x = false) ->
                      forall l', goR l = Ok l' -> forall children, goP l = Ok children -> goP l' = Ok children).
     { clear. induction l as [|c l IHl]; intros HF Hwf l' Eg children Hc.
       - cbn in Eg. injection Eg as <-. exact Hc.
@@ -121,13 +137,20 @@ Proof.
         cbn [goP] in Hc. fold goP in Hc.
         destruct (proc d t (Some rid) assoc (Some (e_kind a, st)) (Some (fst iv)) (snd iv) c) as [rc|] eqn:Epc; [|discriminate]. cbn [bind] in Hc.
         destruct (goP l) as [rest|] eqn:Erest; [|discriminate]. cbn [bind] in Hc. injection Hc as <-.
-        assert (Hwf' : forall x, In x l -> plain_wf x = true) by (intros x Hx; apply Hwf; right; exact Hx).
+        assert (Hwf' : forall x, In x l -> clone_empties rid assoc x = false) by (intros x Hx; apply Hwf; right; exact Hx).
         specialize (IHl Hics Hwf' rs' eq_refl rest eq_refl).
         specialize (Hic assoc (Some (e_kind a, st)) (Some (fst iv)) (snd iv) rc oc (Hwf c (or_introl eq_refl)) Erc Epc).
         destruct oc as [c'|].
         + cbn [goP]. fold goP. rewrite Hic. cbn [bind]. rewrite IHl. reflexivity.
         + subst rc. exact IHl. }
-    specialize (Hch cs IH Hwfcs cs' Eg).
+    (* when every child is removed by the restriction, every child satisfies the pruning test *)
+    assert (Hgone : forall l, goR l = Ok [] -> forallb (clone_prunes rid assoc) l = true).
+    { clear. induction l as [|c l IHl]; intros Eg; [reflexivity|]. cbn [goR] in Eg. fold goR in Eg.
+      destruct (restrict rid assoc c) as [oc|] eqn:Erc; [|discriminate]. cbn [bind] in Eg.
+      destruct (goR l) as [rs'|] eqn:Ers; [|discriminate]. cbn [bind] in Eg.
+      destruct oc as [x|]; [discriminate|]. injection Eg as ->.
+      cbn [forallb]. rewrite (restrict_none _ _ _ Erc), (IHl eq_refl). reflexivity. }
+    specialize (Hch cs IH Htrcs' cs' Eg).
     destruct (display_none st); [match goal with |- (if ?b then _ else _) = _ => destruct b end; exact Hproc|].
     match type of Hproc with bind ?g _ = _ => destruct g as [children|] eqn:Ego end; [|discriminate]. cbn [bind] in Hproc.
     (* region selection may now see a childless element: it is then pruned, and the document's own result was None *)
@@ -136,9 +159,11 @@ Proof.
       apply andb_true_iff in Epr' as [E1 E2]. rewrite E1 in Epr. cbn [andb] in Epr. apply orb_false_iff in Epr as [E3 E4].
       rewrite E4, orb_false_r in E2. destruct cs' as [|x xs]; [|discriminate].
       specialize (Hch children eq_refl). cbn in Hch. injection Hch as <-.
+      rewrite E1, (Hgone cs Eg) in Htrself. apply negb_false_iff in E3. rewrite E3 in Htrself.
+      rewrite !andb_true_r in Htrself. unfold kept_childless in Htrself. apply orb_false_iff in Htrself as [Hka Hreg].
       unfold finish_element in Hproc. cbn [is_nonempty_l andb] in Hproc. rewrite andb_false_r in Hproc.
-      destruct (e_kind a) eqn:Ek; try discriminate; cbn in Hproc; try (injection Hproc as <-; reflexivity).
-      all: destruct cs; [discriminate E3 | discriminate Hk].
+      rewrite Hka in Hproc.
+      destruct (e_kind a) eqn:Ek; try discriminate Hreg; cbn in Hproc; injection Hproc as <-; reflexivity.
     + rewrite (Hch children eq_refl). cbn [bind]. exact Hproc.
 Qed.
 
@@ -152,10 +177,12 @@ Proof.
   intros H. injection H as <-. repeat split.
 Qed.
 
-Definition body_plain (d : doc) : Prop := match d_body d with Some b => plain_wf b = true | None => True end.
+(* the trigger does not fire for region rid *)
+Definition clone_keeps (d : doc) (rid : text) : Prop :=
+  match d_body d with Some b => clone_empties rid None b = false | None => True end.
 
 Lemma clone_region_same d r c t rid o :
-  body_plain d -> e_id (eattrs r) = Some rid -> clone_one_region d r = Ok c ->
+  clone_keeps d rid -> e_id (eattrs r) = Some rid -> clone_one_region d r = Ok c ->
   proc_region d t (Some rid) r = Ok o -> isd c t = Ok (match o with Some x => [x] | None => [] end).
 Proof.
   intros Hwf Hid Hc Hp. pose proof (clone_params _ _ _ Hc) as Hpar.
@@ -169,7 +196,7 @@ Proof.
     rewrite <- (style_phase_ext d c Hpar). destruct (style_phase d t (eattrs r) None _) as [st|]; [|discriminate].
     cbn [bind] in Hp |- *. destruct (display_none st); [exact Hp|].
     cbn [d_body c].
-    unfold body_plain in Hwf. destruct (d_body d) as [b|].
+    unfold clone_keeps in Hwf. destruct (d_body d) as [b|].
     - destruct (proc d t (Some rid) None (Some (KRegion, st)) None None b) as [rb|] eqn:Epb; [|discriminate]. cbn [bind] in Hp.
       pose proof (restrict_proc d t rid b None (Some (KRegion, st)) None None rb b' Hwf Eb Epb) as Hr.
       destruct b' as [x|].
@@ -197,38 +224,103 @@ Proof. intros H Hc. induction H; cbn [app]; [exact Hc | constructor; exact IHomi
 Lemma omits_all l : omits_regions [] l.
 Proof. induction l; constructor; assumption. Qed.
 
-Lemma cached_clones d t : body_plain d -> forall regs outs ds,
-  Forall (fun r => exists rid, e_id (eattrs r) = Some rid) regs ->
-  Forall2 (fun r o => proc_region d t (e_id (eattrs r)) r = Ok o) regs outs -> clones d regs = Ok ds ->
-  exists rs', isd_cached_docs t ds = Ok rs' /\
-              omits_regions rs' (flat_map (fun o => match o with Some e => [e] | None => [] end) outs).
+(* omissions restricted to regions satisfying P; P := "paints nothing" gives render equality (Proofs/C14/Sound.v) *)
+Lemma omits_only_weaken (P : elem -> Prop) a b : omits_only P a b -> omits_regions a b.
+Proof. induction 1; constructor; assumption. Qed.
+Lemma omits_only_refl (P : elem -> Prop) l : omits_only P l l.
+Proof. induction l; constructor; assumption. Qed.
+Lemma omits_only_app (P : elem -> Prop) a b c e : omits_only P a b -> omits_only P c e -> omits_only P (a ++ c) (b ++ e).
+Proof. intros H Hc. induction H; cbn [app]; [exact Hc | constructor; assumption | constructor; assumption]. Qed.
+Lemma omits_only_all (P : elem -> Prop) l : Forall P l -> omits_only P [] l.
+Proof. induction 1; constructor; assumption. Qed.
+Lemma omits_only_render a b : omits_only (fun r => paints r = false) a b -> render a = render b.
 Proof.
-  intros Hwf. induction regs as [|r regs IH]; intros outs ds Hids HF Hc.
-  - inversion HF; subst. cbn [clones] in Hc. injection Hc as <-. exists []. split; [reflexivity | constructor].
-  - inversion HF as [|? o ? outs' Ho HF']; subst. cbn [clones] in Hc.
-    destruct (clone_one_region d r) as [c|] eqn:Ecl; [|discriminate]. cbn [bind] in Hc.
-    destruct (clones d regs) as [cs|] eqn:Ecs; [|discriminate]. cbn [bind] in Hc. injection Hc as <-.
-    inversion Hids as [|? ? [rid Hrid] Hids']; subst.
-    destruct (IH outs' cs Hids' HF' eq_refl) as (rs' & Hrs' & Hom).
-    rewrite Hrid in Ho. pose proof (clone_region_same d r c t rid o Hwf Hrid Ecl Ho) as Hisd.
-    cbn [isd_cached_docs flat_map]. destruct (skip_cached t (content_interval c)).
-    + exists rs'. split; [exact Hrs'|]. destruct o; cbn [app]; [constructor; exact Hom | exact Hom].
-    + rewrite Hisd, Hrs'. cbn [bind]. eexists. split; [reflexivity|]. apply omits_app; [apply omits_refl | exact Hom].
+  induction 1 as [|r a b Hr H IH|r a b H IH]; [reflexivity| |]; unfold render in *; cbn [filter].
+  - rewrite Hr. exact IH.
+  - rewrite IH. reflexivity.
 Qed.
 
+Definition opt_regions (o : option elem) : list elem := match o with Some e => [e] | None => [] end.
+
+(* the trigger does not fire for any region of the document *)
+Definition clones_keep (d : doc) (regs : list elem) : Prop :=
+  Forall (fun r => exists rid, e_id (eattrs r) = Some rid /\ clone_keeps d rid) regs.
+
+(* what a skipped clone would have contributed satisfies P *)
+Definition skip_sound_clones (P : elem -> Prop) (d : doc) (t : Q) : Prop :=
+  forall r c rs, In r (d_regions d) -> clone_one_region d r = Ok c ->
+    skip_cached t (content_interval c) = true -> isd c t = Ok rs -> Forall P rs.
+(* a document with at most one region is its own cache entry *)
+Definition skip_sound_self (P : elem -> Prop) (d : doc) (t : Q) : Prop :=
+  forall rs, (length (d_regions d) <= 1)%nat ->
+    skip_cached t (content_interval d) = true -> isd d t = Ok rs -> Forall P rs.
+
+  Lemma cached_clones (P : elem -> Prop) d t (Hskip : skip_sound_clones P d t) : forall regs outs ds,
+    incl regs (d_regions d) -> clones_keep d regs ->
+    Forall2 (fun r o => proc_region d t (e_id (eattrs r)) r = Ok o) regs outs -> clones d regs = Ok ds ->
+    exists rs', isd_cached_docs t ds = Ok rs' /\ omits_only P rs' (flat_map opt_regions outs).
+  Proof.
+    induction regs as [|r regs IH]; intros outs ds Hincl Hids HF Hc.
+    - inversion HF; subst. cbn [clones] in Hc. injection Hc as <-. exists []. split; [reflexivity | constructor].
+    - inversion HF as [|? o ? outs' Ho HF']; subst. cbn [clones] in Hc.
+      destruct (clone_one_region d r) as [c|] eqn:Ecl; [|discriminate]. cbn [bind] in Hc.
+      destruct (clones d regs) as [cs|] eqn:Ecs; [|discriminate]. cbn [bind] in Hc. injection Hc as <-.
+      inversion Hids as [|? ? (rid & Hrid & Hkeep) Hids']; subst.
+      assert (Hincl' : incl regs (d_regions d)) by (intros x Hx; apply Hincl; right; exact Hx).
+      destruct (IH outs' cs Hincl' Hids' HF' eq_refl) as (rs' & Hrs' & Hom).
+      rewrite Hrid in Ho. pose proof (clone_region_same d r c t rid o Hkeep Hrid Ecl Ho) as Hisd.
+      cbn [isd_cached_docs flat_map]. destruct (skip_cached t (content_interval c)) eqn:Esk.
+      + exists rs'. split; [exact Hrs'|].
+        pose proof (Hskip r c _ (Hincl r (or_introl eq_refl)) Ecl Esk Hisd) as HP.
+        destruct o as [x|]; cbn [opt_regions app]; [|exact Hom]. inversion HP; subst. constructor; assumption.
+      + rewrite Hisd, Hrs'. cbn [bind]. eexists. split; [reflexivity|].
+        apply omits_only_app; [apply omits_only_refl | exact Hom].
+  Qed.
+
+  Theorem cached_omits_only (P : elem -> Prop) d t ds rs :
+    skip_sound_clones P d t -> skip_sound_self P d t ->
+    ((2 <= length (d_regions d))%nat -> clones_keep d (d_regions d)) -> cached_docs d = Ok ds -> isd d t = Ok rs ->
+    exists rs', isd_cached d t = Ok rs' /\ omits_only P rs' rs.
+  Proof.
+    intros Hskip Hskip_self Hids Hc Hi. unfold skip_sound_self in Hskip_self.
+    assert (Hcl := cached_clones P d t Hskip). clear Hskip. unfold isd_cached. rewrite Hc. cbn [bind]. unfold cached_docs in Hc.
+    destruct (d_regions d) as [|r1 [|r2 rest]] eqn:Er.
+    - injection Hc as <-. cbn [isd_cached_docs]. destruct (skip_cached t (content_interval d)) eqn:Esk.
+      + exists []. split; [reflexivity|]. apply omits_only_all. apply Hskip_self; [cbn; lia | reflexivity | exact Hi].
+      + rewrite Hi. cbn [bind]. exists rs. rewrite app_nil_r. split; [reflexivity | apply omits_only_refl].
+    - injection Hc as <-. cbn [isd_cached_docs]. destruct (skip_cached t (content_interval d)) eqn:Esk.
+      + exists []. split; [reflexivity|]. apply omits_only_all. apply Hskip_self; [cbn; lia | reflexivity | exact Hi].
+      + rewrite Hi. cbn [bind]. exists rs. rewrite app_nil_r. split; [reflexivity | apply omits_only_refl].
+    - unfold isd in Hi. rewrite Er in Hi.
+      apply collect_map_ok in Hi as (outs & HF & ->).
+      apply (Hcl (r1 :: r2 :: rest) outs ds (incl_refl _) (Hids ltac:(cbn; lia)) HF Hc).
+  Qed.
+
+(* the cached snapshot is the uncached one with whole regions left out — every document, ruby included, on which the
+   trigger of the recorded finding does not fire *)
 Theorem cached_omits_regions d t ds rs :
-  body_plain d -> Forall (fun r => exists rid, e_id (eattrs r) = Some rid) (d_regions d) ->
-  cached_docs d = Ok ds -> isd d t = Ok rs -> exists rs', isd_cached d t = Ok rs' /\ omits_regions rs' rs.
+  ((2 <= length (d_regions d))%nat -> clones_keep d (d_regions d)) -> cached_docs d = Ok ds -> isd d t = Ok rs ->
+  exists rs', isd_cached d t = Ok rs' /\ omits_regions rs' rs.
 Proof.
-  intros Hwf Hids Hc Hi. unfold isd_cached. rewrite Hc. cbn [bind]. unfold cached_docs in Hc.
-  destruct (d_regions d) as [|r1 [|r2 rest]] eqn:Er.
-  - injection Hc as <-. cbn [isd_cached_docs]. destruct (skip_cached t (content_interval d)).
-    + exists []. split; [reflexivity | apply omits_all].
-    + rewrite Hi. cbn [bind]. exists rs. rewrite app_nil_r. split; [reflexivity | apply omits_refl].
-  - injection Hc as <-. cbn [isd_cached_docs]. destruct (skip_cached t (content_interval d)).
-    + exists []. split; [reflexivity | apply omits_all].
-    + rewrite Hi. cbn [bind]. exists rs. rewrite app_nil_r. split; [reflexivity | apply omits_refl].
-  - unfold isd in Hi. rewrite Er in Hi.
-    apply collect_map_ok in Hi as (outs & HF & ->).
-    apply (cached_clones d t Hwf (r1 :: r2 :: rest) outs ds Hids HF Hc).
+  intros Hk Hc Hi.
+  destruct (cached_omits_only (fun _ => True) d t ds rs) as (rs' & H1 & H2); try assumption.
+  - intros ? ? ? ? ? ? ?. apply Forall_forall. intros; exact I.
+  - intros ? ? ? ?. apply Forall_forall. intros; exact I.
+  - exists rs'. split; [exact H1 | apply (omits_only_weaken _ _ _ H2)].
+Qed.
+
+(* the executable form of the hypothesis *)
+Lemma clones_keep_of_trigger d :
+  Forall (fun r => exists rid, e_id (eattrs r) = Some rid) (d_regions d) ->
+  clone_empties_doc d = false -> (2 <= length (d_regions d))%nat -> clones_keep d (d_regions d).
+Proof.
+  intros Hids Htr Hlen. unfold clones_keep, clone_keeps. unfold clone_empties_doc in Htr.
+  destruct (d_regions d) as [|r1 [|r2 rest]] eqn:Er; [cbn in Hlen; lia | cbn in Hlen; lia|].
+  destruct (d_body d) as [b|]; [|apply Forall_forall; intros r Hr; rewrite Forall_forall in Hids; destruct (Hids r Hr) as [rid Hrid]; exists rid; split; [exact Hrid | exact I]].
+  apply Forall_forall. intros r Hr. rewrite Forall_forall in Hids. destruct (Hids r Hr) as [rid Hrid].
+  exists rid. split; [exact Hrid|].
+  destruct (clone_empties rid None b) eqn:E; [|reflexivity].
+  assert (existsb (fun r => match e_id (eattrs r) with Some rid => clone_empties rid None b | None => false end) (r1 :: r2 :: rest) = true).
+  { apply existsb_exists. exists r. split; [exact Hr | rewrite Hrid; exact E]. }
+  congruence.
 Qed.
